@@ -706,8 +706,10 @@ func (e *Env) index(v, i Val) Val {
 		e.wantInt(i, "index")
 		return g.goVal(app("select", v.T, i.T), u.Elem())
 	case *types.Map:
-		_, val, _ := g.mapHeaps(u)
-		return g.goVal(app("select", app("select", g.heapGet(e.st, val), v.T), i.T), u.Elem())
+		// Go semantics: the zero value when the key is absent (or the map is nil)
+		dom, val, _ := g.mapHeaps(u)
+		present := sAnd(sNot(app("=", v.T, "0")), app("select", app("select", g.heapGet(e.st, dom), v.T), i.T))
+		return g.goVal(sIte(present, app("select", app("select", g.heapGet(e.st, val), v.T), i.T), g.sorts.ZeroOf(u.Elem())), u.Elem())
 	case *types.Pointer:
 		if a, ok := u.Elem().Underlying().(*types.Array); ok {
 			h := g.elemsHeap(a.Elem())
